@@ -126,6 +126,45 @@ def run(db, res, tier):
     why="with {setbits} disabled no launch of {fk} is reachable but its forward/inverse sibling {dk} is still launched: the Euler step and the discrete-time inverse (INVDISCRETE) disagree on whether joint damping is integrated implicitly, so inverse(forward) is no longer the identity",
   )
   res.floor("euler-damping sibling gating obligations", ng, 2)
+  # (4b') the same agreement for IMPLICITFAST: whenever forward.implicit integrates velocity derivatives implicitly
+  # (deriv_smooth_vel is reached), the discrete-time inverse must apply the same correction
+  import itertools
+
+  def _reach(entry, member):
+    out = []
+    for ev in db.trace(entry).events:
+      if ev.kind == "enter" and ev.name == "derivative.deriv_smooth_vel":
+        out.append((ev.pc, ev.loc))
+    return out
+
+  f_calls, i_calls = _reach("forward.implicit", "IMPLICITFAST"), _reach("inverse.inverse", "IMPLICITFAST")
+  if not f_calls or not i_calls:
+    res.error("anchor vanished: deriv_smooth_vel is not called from forward.implicit / inverse.inverse")
+  nimp = 0
+  members = ["ACTUATION", "SPRING", "DAMPER"]
+  for vals in itertools.product([False, True], repeat=3):
+    asg = {f"DisableBit.{m}": v for m, v in zip(members, vals)}
+    env = r_flags.FlagEnv("DisableBit.ACTUATION", asg["DisableBit.ACTUATION"], asg)
+    env.enum_assign = {"integrator": ("IntegratorType", "IMPLICITFAST")}
+    env.atoms = {}
+    f_sure = [loc for pc, loc in f_calls if all((env.host(t) is True) == p and env.host(t) is not None for t, p in pc if ("disableflags" in t or "integrator" in t))]
+    i_dead = all(env.pc_host(pc) is False for pc, _ in i_calls)
+    if not f_sure:
+      continue
+    nimp += 1
+    setbits = "+".join(m for m, v in zip(members, vals) if v) or "none"
+    res.ob(
+      not i_dead,
+      f"implicitfast|deriv_smooth_vel|{setbits}",
+      Finding(
+        "R-FLAGS.5",
+        f"inverse.discrete_acc|deriv_smooth_vel|IMPLICITFAST|{setbits}",
+        f"with {setbits} disabled forward.implicit (IMPLICITFAST) still integrates the velocity derivatives implicitly (deriv_smooth_vel is reached) but no call of deriv_smooth_vel is reachable from inverse(): the discrete-time inverse (INVDISCRETE) omits the correction the step applied, so inverse(forward) is no longer the identity",
+        i_calls[0][1],
+      ),
+      sample={"disabled": setbits, "forward_reaches": True, "inverse_reaches": not i_dead},
+    )
+  res.floor("implicitfast sibling gating obligations", nimp, 4)
   # (4c) sibling guard agreement (Engler: sibling implementations must agree on their argument checks): the kernel that
   # adds dt * d(damping force)/dv to the inertia diagonal in the Euler step and the kernel that applies the same
   # correction in the discrete-time inverse evaluate the same derivative function on the same model fields, and neither
